@@ -526,24 +526,8 @@ def r5_after_cannot_teardown(ctx, rep, R='C01.R5'):
                   'the queue is popped between the CanNotTearDown handler and resume_tests',
                   key='resume-pop', func=fi.qualname, where=ctx.where(fi, g.node(H[0]).ast))
     # child keeps only its own layer
-    ff = ctx.model.func('filter.Filter.global_setup')
-    gf = ctx.cfg(ff)
-    keep = False
-    for n in gf.nodes:
-        if n.kind == 'for' and isinstance(n.stmt.target, ast.Name):
-            v = n.stmt.target.id
-            for st in ast.walk(n.stmt):
-                if isinstance(st, ast.If) and isinstance(st.test, ast.Compare) and \
-                        len(st.test.ops) == 1 and isinstance(st.test.ops[0], ast.NotEq) and \
-                        {norm(st.test.left), norm(st.test.comparators[0])} >= {v} and \
-                        'resume_layer' in norm(st.test) and any(
-                            isinstance(c, ast.Call) and isinstance(c.func, ast.Attribute) and
-                            c.func.attr == 'pop' and c.args and is_name(c.args[0], v)
-                            for b in st.body for c in ast.walk(b)):
-                    keep = True
-    rep.check(keep, R, 'child drops every layer but --resume-layer',
-              'Filter.global_setup no longer removes all layers other than resume_layer',
-              key='child-only-own-layer', func=ff.qualname, where=ctx.where(ff, ff.node))
+    from .common import child_keeps_only_own_layer
+    child_keeps_only_own_layer(ctx, rep, R)
 
 
 def r6_final_teardown(ctx, rep, R='C01.R6'):
